@@ -86,6 +86,9 @@ def one_mutant(m, suite):
 
 def one_seeded(d, suite):
     meta = json.load(open(os.path.join(d, "meta.json")))
+    if meta.get("not_a_violation"):
+        # re-examined after collection: the change has no effect on anything the property observes
+        return {"id": os.path.basename(d), "property": meta["property"], "status": "not_a_violation", "why": meta["not_a_violation"]["why"][:200]}
     if meta.get("superseded"):
         # a later fix: commit made this change harmless on the current tree; kept for the record only
         return {"id": os.path.basename(d), "property": meta["property"], "status": "superseded", "superseded": meta["superseded"]}
